@@ -155,6 +155,10 @@ func writeCategoryNameFile(catName, dirName string) error {
 	if _, err = fp.WriteString(catName); err != nil {
 		return errors.New(io.GetCallerFileContext(0) + err.Error())
 	}
+	// the catalog cannot be loaded without this file: make it durable right away
+	if err = fp.Sync(); err != nil {
+		return errors.New(io.GetCallerFileContext(0) + err.Error())
+	}
 	return nil
 }
 
@@ -761,8 +765,11 @@ func newTimeBucketInfoFromTemplate(newTimeBucketInfo *io.TimeBucketInfo) (err er
 	if _, err2 := os.Stat(newTimeBucketInfo.Path); err2 == nil {
 		return FileAlreadyExists("Can not overwrite file")
 	}
-	// Create the file
-	fp, err := os.OpenFile(newTimeBucketInfo.Path, os.O_CREATE|os.O_RDWR, 0o600)
+	// Create the file under a temporary name and give it its final name only once the header
+	// and the size are on disk: a crash must never leave a year file without a valid header,
+	// because the whole bucket becomes unreadable then
+	tmpPath := newTimeBucketInfo.Path + ".tmp"
+	fp, err := os.OpenFile(tmpPath, os.O_CREATE|os.O_RDWR, 0o600)
 	if err != nil {
 		return fmt.Errorf("open new time bucket info file %s: %w", newTimeBucketInfo.Path, err)
 	}
@@ -784,6 +791,12 @@ func newTimeBucketInfoFromTemplate(newTimeBucketInfo *io.TimeBucketInfo) (err er
 		int(newTimeBucketInfo.GetRecordLength()),
 	)
 	if err = fp.Truncate(fileSize); err != nil {
+		return UnableToCreateFile(err.Error())
+	}
+	if err = fp.Sync(); err != nil {
+		return UnableToCreateFile(err.Error())
+	}
+	if err = os.Rename(tmpPath, newTimeBucketInfo.Path); err != nil {
 		return UnableToCreateFile(err.Error())
 	}
 
